@@ -171,7 +171,8 @@ structure SpansEnc (c : Chunk) : Prop where
   nl : c.nSpans.length < 2 ^ 64
 
 /-- the key part of the layout (threshold, schema, no custom bounds) is encodable for every reachable chunk -/
-theorem layoutOk_of_inv (c : Chunk) (l : List (Int × Hist)) (inv : CInv c l) (hsm : ∀ p ∈ l, SmallH p)
+theorem layoutOk_of_inv (c : Chunk) (l : List (Int × Hist)) (inv : CInv c l)
+    (hsm : ∀ p ∈ l, p.2.zt < 2 ^ 64 ∧ I64 p.2.schema ∧ p.2.schema ≠ customSchema)
     (hne : c.rev ≠ []) (hsp : SpansEnc c) : LayoutOk (layoutOf c) := by
   have hrep := All2.reverse inv.rep
   have hrr : c.rev.reverse ≠ [] := by simpa using hne
@@ -196,10 +197,10 @@ theorem layoutOk_of_inv (c : Chunk) (l : List (Int × Hist)) (inv : CInv c l) (h
     | false =>
       obtain ⟨_, ksch, kzt, kcu, _⟩ := key_of_rep c s0 th0 hrep.1 hst
       have w := inv.wf th0 hmem0 hst
-      refine ⟨by simp only [layoutOf]; rw [kzt]; exact sm.zt, ?_, by simp only [layoutOf]; rw [ksch]; exact sm.schema.1,
-        by simp only [layoutOf]; rw [ksch]; exact sm.schema.2, ?_, hsp.p, hsp.n, hsp.pl, hsp.nl⟩
+      refine ⟨by simp only [layoutOf]; rw [kzt]; exact sm.1, ?_, by simp only [layoutOf]; rw [ksch]; exact sm.2.1,
+        by simp only [layoutOf]; rw [ksch]; exact sm.2.2, ?_, hsp.p, hsp.n, hsp.pl, hsp.nl⟩
       · simp only [layoutOf]; rw [kzt]; exact w.zt
-      · simp only [layoutOf]; rw [kcu]; exact w.customNil sm.schema.2
+      · simp only [layoutOf]; rw [kcu]; exact w.customNil sm.2.2
 
 /-- chunks of a series never hold more than 65535 samples (the appender panics first) and are never empty -/
 theorem runSeries_sizes : ∀ (ops : List ((Int × Hist) × Bool)) (s0 : Series) (gs : List (List (Int × Hist))),
@@ -252,7 +253,8 @@ theorem series_bytes_roundtrip (ops : List ((Int × Hist) × Bool)) (s : Series)
     simp only [List.flatten_nil, List.append_nil, List.mem_reverse, List.mem_map] at this
     obtain ⟨q, hq, rfl⟩ := this
     exact hsm q hq
-  obtain ⟨s0, ss, ok⟩ := chunkOk_of_inv c g ci hsmall hne (by omega) (layoutOk_of_inv c g ci hsmall hne hsp)
+  obtain ⟨s0, ss, ok⟩ := chunkOk_of_inv c g ci hsmall hne (by omega)
+    (layoutOk_of_inv c g ci (fun p hp => ⟨(hsmall p hp).zt, (hsmall p hp).schema⟩) hne hsp)
   exact decodeChunk_encodeChunk c s0 ss ok
 
 end Prom.HistChunk
@@ -383,5 +385,106 @@ theorem series_bytes_roundtrip' (ops : List ((Int × Hist) × Bool)) (s : Series
     (fun p hp => ⟨hwf p hp, (hsm p hp).spans.1, (hsm p hp).spans.2⟩) s hrun c hc'
   exact series_bytes_roundtrip ops s hwf hsm hrun c hc
     ⟨hlb.1.1.1, hlb.2.1.1, hlb.1.1.2, hlb.2.1.2⟩
+
+/-! ## float flavour -/
+
+/-- an appended float histogram: every value is a 64-bit pattern -/
+structure SmallHF (th : Int × Hist) : Prop where
+  t : Sm th.1
+  flt : th.2.float = true
+  sum : th.2.sum < 2 ^ 64
+  cnt : th.2.count < 2 ^ 64
+  zcnt : th.2.zcount < 2 ^ 64
+  zt : th.2.zt < 2 ^ 64
+  schema : I64 th.2.schema ∧ th.2.schema ≠ customSchema
+  spans : LayoutBound th.2.pSpans ∧ LayoutBound th.2.nSpans
+  pV : ∀ b ∈ th.2.pB, 0 ≤ b ∧ b < 2 ^ 64
+  nV : ∀ b ∈ th.2.nB, 0 ≤ b ∧ b < 2 ^ 64
+
+theorem All2.and' {α β : Type} {R S : α → β → Prop} : ∀ {as : List α} {bs : List β},
+    All2 R as bs → All2 S as bs → All2 (fun a b => R a b ∧ S a b) as bs
+  | [], [], _, _ => trivial
+  | [], _ :: _, h, _ => h.elim
+  | _ :: _, [], h, _ => h.elim
+  | _ :: _, _ :: _, h1, h2 => ⟨⟨h1.1, h2.1⟩, All2.and' h1.2 h2.2⟩
+
+theorem chunkOkF_of_inv (c : Chunk) (l : List (Int × Hist)) (inv : CInv c l) (hsm : ∀ p ∈ l, SmallHF p)
+    (hne : c.rev ≠ []) (hnum : c.num < 65536) (hlay : LayoutOk (layoutOf c)) :
+    ∃ s0 ss, ChunkOkF c s0 ss := by
+  have hrr : c.rev.reverse ≠ [] := by simpa using hne
+  obtain ⟨s0, ss, hrev⟩ := List.exists_cons_of_ne_nil hrr
+  obtain ⟨sl, rl, hrevl⟩ := List.exists_cons_of_ne_nil hne
+  cases hl : l with
+  | nil => have := inv.rep; rw [hl, hrevl] at this; exact this.elim
+  | cons th1 l1 =>
+    have hflt : c.float = true := by
+      rw [← inv.flt th1 (by rw [hl]; simp)]; exact (hsm th1 (by rw [hl]; simp)).flt
+    have hboth := All2.and' inv.rep (inv.vals hflt)
+    have hlast : c.rev.getLast? = some s0 := by
+      have := congrArg List.head? hrev
+      simpa [List.head?_reverse] using this
+    have hsamples : ∀ s ∈ s0 :: ss, SOkF (countSpans c.pSpans) (countSpans c.nSpans) s := by
+      intro s hs
+      have hsrev : s ∈ c.rev := by
+        have : s ∈ c.rev.reverse := by rw [hrev]; exact hs
+        simpa using this
+      obtain ⟨th, hthl, hr, hv⟩ := All2.mem_left hboth s hsrev
+      have sm := hsm th hthl
+      cases hst : th.2.stale with
+      | true =>
+        have hss := hr.2.1 hst
+        obtain ⟨c0, z0, p0, n0⟩ := inv.staleForm s hsrev hss
+        exact ⟨by rw [hr.1]; exact sm.t, by rw [c0]; decide, by rw [z0]; decide, by rw [hss]; exact staleBits_lt,
+          fun _ => ⟨c0, z0, p0, n0⟩, fun h => absurd hss h⟩
+      | false =>
+        obtain ⟨hlive, hsem, hlp, hln⟩ := hr.2.2 hst
+        have hc : s.count = th.2.count := by
+          have := congrArg Sem.count hsem; simpa [Chunk.histOf, hlive, Hist.sem] using this
+        have hz : s.zcount = th.2.zcount := by
+          have := congrArg Sem.zcount hsem; simpa [Chunk.histOf, hlive, Hist.sem] using this
+        have hsum : s.sum = th.2.sum := by
+          have := congrArg Sem.sum hsem; simpa [Chunk.histOf, hlive, Hist.sem] using this
+        exact ⟨by rw [hr.1]; exact sm.t, by rw [hc]; exact sm.cnt, by rw [hz]; exact sm.zcnt, by rw [hsum]; exact sm.sum,
+          fun h => absurd h hlive,
+          fun _ => ⟨by rw [hlp, countSpans_eq], by rw [hln, countSpans_eq],
+            fun v hv' => (hv.1 v hv').elim (fun h0 => by subst h0; omega) (fun hm => sm.pV v hm),
+            fun v hv' => (hv.2 v hv').elim (fun h0 => by subst h0; omega) (fun hm => sm.nV v hm)⟩⟩
+    refine ⟨s0, ss, hflt, hnum, hlay, hrev, ?_, hsamples⟩
+    have h0 := hsamples s0 (by simp)
+    by_cases hst : s0.sum = staleBits
+    · obtain ⟨_, _, p0, n0⟩ := h0.stale hst
+      obtain ⟨e1, e2, _⟩ := inv.staleFirst s0 hlast hst
+      simp [p0, n0, e1, e2, countSpans]
+    · exact ⟨(h0.live hst).1, (h0.live hst).2.1⟩
+
+/-- **From appended float histograms to bytes and back.** -/
+theorem series_bytes_roundtrip_float (ops : List ((Int × Hist) × Bool)) (s : Series) (hwf : ∀ p ∈ ops, WFs p.1.2)
+    (hsm : ∀ p ∈ ops, SmallHF p.1) (hrun : runSeries ops Series.empty = .ok s) :
+    ∀ c ∈ s.chunks, decodeChunkF (encodeChunk c) = some c := by
+  intro c hc
+  obtain ⟨gs, inv, hf, hsz⟩ := runSeries_sizes ops Series.empty [] trivial (by simp) hwf s hrun
+  have hc' : c ∈ s.cur.toList ++ s.done := by
+    have : c ∈ (s.cur.toList ++ s.done).reverse := hc
+    exact List.mem_reverse.1 this
+  obtain ⟨g, hg, ci⟩ := All2.mem_left inv c hc'
+  have hgl : c.num = g.length := All2.length ci.rep
+  obtain ⟨hgne, hgle⟩ := hsz g hg
+  have hne : c.rev ≠ [] := by
+    intro e; apply hgne
+    have : g.length = 0 := by rw [← hgl]; simp [Chunk.num, e]
+    exact List.eq_nil_of_length_eq_zero this
+  have hsmall : ∀ p ∈ g, SmallHF p := by
+    intro p hp
+    have : p ∈ gs.flatten := List.mem_flatten.2 ⟨g, hg, hp⟩
+    rw [hf] at this
+    simp only [List.flatten_nil, List.append_nil, List.mem_reverse, List.mem_map] at this
+    obtain ⟨q, hq, rfl⟩ := this
+    exact hsm q hq
+  have hlb := runSeries_layouts ops Series.empty [] trivial (by simp [Series.empty])
+    (fun p hp => ⟨hwf p hp, (hsm p hp).spans.1, (hsm p hp).spans.2⟩) s hrun c hc'
+  have hlay := layoutOk_of_inv c g ci (fun p hp => ⟨(hsmall p hp).zt, (hsmall p hp).schema⟩) hne
+    ⟨hlb.1.1.1, hlb.2.1.1, hlb.1.1.2, hlb.2.1.2⟩
+  obtain ⟨s0, ss, ok⟩ := chunkOkF_of_inv c g ci hsmall hne (by omega) hlay
+  exact decodeChunkF_encodeChunk c s0 ss ok
 
 end Prom.HistChunk
